@@ -81,9 +81,9 @@ def provenance(check: Check, repo) -> None:
 
 def run(tier: str) -> Check:
     check = Check("C13", tier, EXPLANATION)
-    check.rules = ["FURTHEST", "FAIL-SITE", "FAILLABEL", "FAILPOS", "FRAMES", "NEG", "SUPPRESS", "FAIL-PARITY", "ESCAPE-RENDER"]
+    check.rules = ["FURTHEST", "FAIL-SITE", "FAILLABEL", "FAILPOS", "FRAMES", "NEG", "SUPPRESS", "FAIL-PARITY", "ESCAPE-RENDER", "LINE-OFFSET"]
     check.assumptions = [
-        "that the line/column/source line shown are those of p is arithmetic of error_context (numeric; see C14) and not decided",
+        "that the line/column/source line shown are those of p: only the partition premise (LINE-OFFSET) of error_context is decided, not its arithmetic",
         "start_pos <= p relies on C16's position-write discipline and on callers passing 0 <= start_pos <= len(text)",
     ]
     repo, _ = fill(check, tier, floors={"parse_paths": 120, "skeleton_paths": 120})
@@ -91,6 +91,9 @@ def run(tier: str) -> Check:
     for r in RENDER:
         t, _ = run_entry(check, repo, r, set(), "ESCAPE-RENDER")
         check.count("escaping_sites_examined", t)
+    from ..lineoff import apply as line_offsets
+
+    line_offsets(check, repo, "LINE-OFFSET", ["src/pest/exceptions.py"], 1)
     check.floor("fail_call_sites", 18)
     check.floor("furthest_writes", 8)
     return check
